@@ -12,6 +12,22 @@ pub mod values;
 pub mod world;
 
 use profile::Profile;
+use std::sync::atomic::{AtomicU64, Ordering};
+
+/// size knobs of the tier: the thorough tier draws longer histories, more contracts, deeper nesting
+static SCALE: AtomicU64 = AtomicU64::new(1);
+pub fn set_scale(s: u64) {
+    SCALE.store(s.max(1), Ordering::Relaxed)
+}
+pub fn scale() -> u64 {
+    SCALE.load(Ordering::Relaxed)
+}
+pub fn extra_contracts() -> u64 {
+    if scale() > 1 { 2 } else { 0 }
+}
+pub fn extra_depth() -> u64 {
+    if scale() > 1 { 1 } else { 0 }
+}
 
 /// which profiles decide which property, with their share of the run budget
 pub fn profiles(prop: &str) -> Vec<(Box<dyn Profile>, u64)> {
